@@ -1631,6 +1631,10 @@ func runT(f []string) string {
 
 func runCase(line string) string {
 	f := strings.Split(line, " ")
+	if len(f) >= 3 && f[0] == "E" && f[2] == "tbs" {
+		res, _ := hx.Guard(deadline, func() string { return runTBS(f) })
+		return f[1] + " " + res
+	}
 	if len(f) >= 3 && f[0] == "E" {
 		res, _ := hx.Guard(deadline, func() string { return runE(f) })
 		return f[1] + " " + res
@@ -1791,7 +1795,11 @@ func gen(seed uint64, tier string) []string {
 	}
 	for i := 0; i < nE; i++ {
 		id++
-		lines = append(lines, genE(r, id))
+		if i%5 == 4 {
+			lines = append(lines, genTBS(r, id))
+		} else {
+			lines = append(lines, genE(r, id))
+		}
 	}
 	return lines
 }
@@ -2142,4 +2150,151 @@ func genE(r *hx.Rng, id int) string {
 		}
 		return fmt.Sprintf("E %d aki %s", id, hx.Hex(b))
 	}
+}
+
+// ------------------------------------------------------------------------------------------------
+// E tbs cases: the TBSCertList CreateRevocationList / CreateCRL assemble, byte for byte.
+//
+//	E <id> tbs <mode> <alg> <issuer> <this> <next> <ski> <number> <entries> <extras>
+//	   mode rl | crl; alg, issuer, this, next: hex of the DER elements (next "-" = zero time); ski hex;
+//	   number decimal (rl only); entries = serial;time-element-hex;exts joined by ","; exts = oid!crit!value-hex joined by "+";
+//	   extras: like exts (rl only)
+//	-> ok <hex of TBSCertList.Raw>
+
+type tbsExt struct {
+	oid  asn1.ObjectIdentifier
+	crit bool
+	val  []byte
+}
+
+func extsStr(v []tbsExt) string {
+	if len(v) == 0 {
+		return "-"
+	}
+	p := make([]string, len(v))
+	for i, e := range v {
+		p[i] = oidsStr([]asn1.ObjectIdentifier{e.oid}) + "!" + b2s(e.crit) + "!" + hx.Hex(e.val)
+	}
+	return strings.Join(p, "+")
+}
+
+func unExts(s string) []pkix.Extension {
+	if s == "-" || s == "" {
+		return nil
+	}
+	var out []pkix.Extension
+	for _, e := range strings.Split(s, "+") {
+		q := strings.Split(e, "!")
+		out = append(out, pkix.Extension{Id: unOIDs(q[0])[0], Critical: q[1] == "1", Value: hx.UnHex(q[2])})
+	}
+	return out
+}
+
+func timeOfElem(h string) time.Time {
+	var t time.Time
+	if h == "-" {
+		return t
+	}
+	if _, err := asn1.Unmarshal(hx.UnHex(h), &t); err != nil {
+		panic("bad time element in case line")
+	}
+	return t
+}
+
+func genTBS(r *hx.Rng, id int) string {
+	mode := "rl"
+	if r.Intn(3) == 0 {
+		mode = "crl"
+	}
+	tmv := func() time.Time {
+		y := r.Pick([]int{1950, 1999, 2024, 2049, 2050, 2051, 9999})
+		return time.Date(y, time.Month(1+r.Intn(12)), 1+r.Intn(28), r.Intn(24), r.Intn(60), r.Intn(60), 0, time.UTC)
+	}
+	enc := func(t time.Time) string {
+		b, _ := asn1.Marshal(t)
+		return hx.Hex(b)
+	}
+	tm := func() string { return enc(tmv()) }
+	gext := func() tbsExt {
+		return tbsExt{asn1.ObjectIdentifier{2, 5, 29, 21 + r.Intn(3)}, r.Intn(3) == 0, genBytesE(r, false)}
+	}
+	alg, _ := asn1.Marshal(pkix.AlgorithmIdentifier{Algorithm: asn1.ObjectIdentifier{1, 2, 156, 10197, 1, 501}})
+	name := pkix.Name{CommonName: "crl issuer " + strconv.Itoa(r.Intn(3)), Organization: []string{"verif"}}
+	iss, _ := asn1.Marshal(name.ToRDNSequence())
+	t1, t2 := tmv(), tmv()
+	if t2.Before(t1) { // CreateRevocationList refuses NextUpdate before ThisUpdate (not part of the byte model)
+		t1, t2 = t2, t1
+	}
+	this, next := enc(t1), enc(t2)
+	if mode == "crl" && r.Intn(4) == 0 {
+		next = "-"
+	}
+	ski := r.Bytes(1 + r.Intn(20))
+	if mode == "crl" && r.Intn(3) == 0 {
+		ski = nil
+	}
+	var entries []string
+	for n := r.Pick([]int{0, 0, 1, 2, 3, 5}); n > 0; n-- {
+		ser := genSerial(r, 2)
+		var xs []tbsExt
+		for k := r.Pick([]int{0, 0, 1, 2}); k > 0; k-- {
+			xs = append(xs, gext())
+		}
+		entries = append(entries, ser.String()+";"+tm()+";"+extsStr(xs))
+	}
+	es := "-"
+	if len(entries) > 0 {
+		es = strings.Join(entries, ",")
+	}
+	var extra []tbsExt
+	if mode == "rl" {
+		for k := r.Pick([]int{0, 0, 1, 2}); k > 0; k-- {
+			extra = append(extra, gext())
+		}
+	}
+	num := genSerial(r, 2)
+	return fmt.Sprintf("E %d tbs %s %s %s %s %s %s %s %s %s", id, mode, hx.Hex(alg), hx.Hex(iss), this, next, hx.Hex(ski), num.String(), es, extsStr(extra))
+}
+
+func runTBS(f []string) string {
+	if len(f) != 12 {
+		return "BADCASE"
+	}
+	mode := f[3]
+	var rdn pkix.RDNSequence
+	if _, err := asn1.Unmarshal(hx.UnHex(f[5]), &rdn); err != nil {
+		return "BADCASE"
+	}
+	var name pkix.Name
+	name.FillFromRDNSequence(&rdn)
+	issuer := &x509.Certificate{Subject: name, SubjectKeyId: hx.UnHex(f[8]), KeyUsage: x509.KeyUsageCRLSign}
+	if len(issuer.SubjectKeyId) == 0 {
+		issuer.SubjectKeyId = nil
+	}
+	var revoked []pkix.RevokedCertificate
+	if f[10] != "-" {
+		for _, e := range strings.Split(f[10], ",") {
+			q := strings.Split(e, ";")
+			ser, _ := new(big.Int).SetString(q[0], 10)
+			revoked = append(revoked, pkix.RevokedCertificate{SerialNumber: ser, RevocationTime: timeOfElem(q[1]), Extensions: unExts(q[2])})
+		}
+	}
+	var der []byte
+	var err error
+	if mode == "rl" {
+		num, _ := new(big.Int).SetString(f[9], 10)
+		der, err = x509.CreateRevocationList(rand.Reader, &x509.RevocationList{SignatureAlgorithm: x509.SM2WithSM3,
+			RevokedCertificates: revoked, Number: num, ThisUpdate: timeOfElem(f[6]), NextUpdate: timeOfElem(f[7]),
+			ExtraExtensions: unExts(f[11])}, issuer, W.sm2k[0])
+	} else {
+		der, err = issuer.CreateCRL(rand.Reader, W.sm2k[0], revoked, timeOfElem(f[6]), timeOfElem(f[7]))
+	}
+	if err != nil {
+		return "err create"
+	}
+	p, err := x509.ParseDERCRL(der)
+	if err != nil {
+		return "err parse"
+	}
+	return "ok " + hx.Hex(p.TBSCertList.Raw)
 }
